@@ -53,6 +53,25 @@ Theorem C19_possessive_is_atomic :
                     end) quants = true.
 Proof. vm_compute. reflexivity. Qed.
 
+(* ... also under the swap-greed flag `(?U)`, where every quantifier's greed is inverted: the
+   possessive spelling keeps the (inverted) greed of the quantifier it wraps (finite: the ten
+   quantifier forms above on the atom 'a') *)
+Theorem C19_possessive_is_atomic_swap_greed :
+  forallb (fun q => match tree_of ([40; 63; 85; 41; 97] ++ q ++ [43]),
+                          tree_of ([40; 63; 85; 41; 40; 63; 62; 97] ++ q ++ [41]),
+                          tree_of ([97] ++ q) with
+                    | Some (AtomicGroup a), Some (AtomicGroup b), Some c =>
+                        match a, b, c with
+                        | Repeat (Literal [97] false) lo hi g, Repeat (Literal [97] false) lo' hi' g',
+                          Repeat (Literal [97] false) lo'' hi'' g'' =>
+                            N.eqb lo lo' && N.eqb hi hi' && Bool.eqb g g' &&
+                            N.eqb lo lo'' && N.eqb hi hi'' && Bool.eqb g (negb g'')
+                        | _, _, _ => false
+                        end
+                    | _, _, _ => false
+                    end) quants = true.
+Proof. vm_compute. reflexivity. Qed.
+
 (* unbounded: a comment body of any length n made of bytes other than ')' and '\' is skipped *)
 Theorem C19_comment_skipped : forall re n ix fuel,
   (forall k, k < n -> exists b, nth_error re (ix + k) = Some b /\ b <> 41 /\ b <> 92) ->
@@ -80,3 +99,4 @@ Print Assumptions C19_escape_table.
 Print Assumptions C19_hex_forms.
 Print Assumptions C19_possessive_is_atomic.
 Print Assumptions C19_comment_skipped.
+Print Assumptions C19_possessive_is_atomic_swap_greed.
